@@ -73,7 +73,7 @@ RejectedChangesNothing == [][("status" \in DOMAIN lastRes' /\ lastRes'.status = 
 \* C09: the middleware decision.  route classes x credential classes x configuration
 RouteClasses == {"ApiUser", "ApiAdmin", "Public"}
 CredClasses  == {"none", "empty", "wrongScheme", "extraParts", "unknown", "revoked", "user", "admin",
-                 "adminPrefix", "adminPlus", "userPrefix", "bearerOnly"}
+                 "adminPrefix", "adminPlus", "userPrefix", "bearerOnly", "schemeOnly", "oneChar"}
 CredValid(c) == c \in {"user", "admin"}
 \* [may the handler run, must the answer be 401]
 Decide(route, cred, useAuth) ==
